@@ -188,6 +188,52 @@ pub fn run(ctx: &Ctx, rep: &mut Report) {
                     }
                 }
             }
+            // dictionary lookup with all fields into a list that last held an analysis made under the narrow request,
+            // then on-demand splits of the words found: the parts carry the fields the lookup asked for
+            if ti % 4 == 1 {
+                let compounds: Vec<&str> = (0..=world.users.len())
+                    .flat_map(|d| world.lexicon_of(d).entries.iter().filter(|e| e.indexed() && (e.split_a.len() >= 2 || e.split_b.len() >= 2)).map(|e| e.key.as_str()).collect::<Vec<_>>())
+                    .take(4)
+                    .collect();
+                for q in compounds {
+                    let r = guard(|| -> Result<Vec<(Vec<[String; 10]>, Vec<[String; 10]>)>, sudachi::error::SudachiError> {
+                        let mut used = sudachi::prelude::MorphemeList::empty(&world.dict);
+                        let mut narrow = sudachi::analysis::stateful_tokenizer::StatefulTokenizer::new(&world.dict, Mode::C);
+                        narrow.set_subset(subset_of(bits & 0x005));
+                        narrow.reset().push_str(&text);
+                        narrow.do_tokenize()?;
+                        used.collect_results(&mut narrow)?;
+                        used.clear();
+                        let mut fresh = sudachi::prelude::MorphemeList::empty(&world.dict);
+                        used.lookup(q, subset_of(0x3ff))?;
+                        fresh.lookup(q, subset_of(0x3ff))?;
+                        let mut out = vec![];
+                        for k in 0..used.len().min(fresh.len()) {
+                            for sm in [Mode::A, Mode::B] {
+                                let mut pa = sudachi::prelude::MorphemeList::empty(&world.dict);
+                                let mut pb = sudachi::prelude::MorphemeList::empty(&world.dict);
+                                used.split_into(sm, k, &mut pa)?;
+                                fresh.split_into(sm, k, &mut pb)?;
+                                out.push(((0..pa.len()).map(|i| field_values(pa.get(i).get_word_info())).collect(), (0..pb.len()).map(|i| field_values(pb.get(i).get_word_info())).collect()));
+                            }
+                        }
+                        Ok(out)
+                    });
+                    match r {
+                        Ok(Ok(pairs)) => {
+                            for (a, b) in pairs {
+                                rep.count("splits_of_looked_up_words_compared", 1);
+                                if a != b {
+                                    rep.violation("field_differs", "lookup + split_into", &format!("lookup({:?}, all fields) into a list that had held an analysis with fewer fields, then split: parts {:?}; the same on a new list: {:?}", q, a.iter().map(|x| (x[0].clone(), x[2].clone(), x[3].clone())).collect::<Vec<_>>(), b.iter().map(|x| (x[0].clone(), x[2].clone(), x[3].clone())).collect::<Vec<_>>()), "", scen());
+                                    break;
+                                }
+                            }
+                        }
+                        Ok(Err(_)) => {}
+                        Err(p) => rep.violation("accessor_panic", &p.site, &format!("lookup into a used list, then split_into: {}", p.msg), "", scen()),
+                    }
+                }
+            }
             if let Some(m) = check_partition(&text, &os, 0, text.len()) {
                 rep.violation("partition", "subset analysis", &m, "", scen());
                 continue;
